@@ -7,6 +7,7 @@ import time
 from common import KANI_TARGET, Undecided, log, run
 
 JOBS = int(os.environ.get("VERIF_JOBS", "6"))
+RETRY_MEM_GB = int(os.environ.get("VERIF_RETRY_MEM_GB", "26"))
 MEM_GB = int(os.environ.get("VERIF_MEM_GB", "9"))  # resident-set limit per cbmc process (watchdog in common.run); JOBS x MEM_GB must stay below RAM
 
 
@@ -87,7 +88,7 @@ def classify(res):
 
 
 def run_kani(tree, crate, harnesses, timeout_s, harness_timeout_s, extra_args=(), features=None, exact=True,
-             solver=None, jobs=None, env=None, cbmc_args=()):
+             solver=None, jobs=None, env=None, cbmc_args=(), mem_gb=None):
     """harnesses: list of short harness names (fn names, unique in the crate). Returns dict name -> HarnessResult,
     plus the command line and total seconds."""
     os.makedirs(KANI_TARGET, exist_ok=True)
@@ -113,7 +114,7 @@ def run_kani(tree, crate, harnesses, timeout_s, harness_timeout_s, extra_args=()
     import fcntl
     with open(os.path.join(KANI_TARGET, ".verif-lock"), "w") as lockf:
         fcntl.flock(lockf, fcntl.LOCK_EX)
-        rc, out, secs = run(cmd, cwd=tree, timeout=timeout_s, mem_gb=MEM_GB, env=env)
+        rc, out, secs = run(cmd, cwd=tree, timeout=timeout_s, mem_gb=mem_gb or MEM_GB, env=env)
     results = {h: HarnessResult(h) for h in harnesses}
     # build failure?
     if "Checking harness" not in out and "Complete -" not in out:
